@@ -39,6 +39,12 @@ Theorem C10_only_join_consumes : forall g l, joiner_runs g l = false ->
   completed (step g l) = completed g /\ consumed (step g l) = consumed g.
 Proof. intros g l. destruct (step_frame g l) as (_ & _ & H). exact H. Qed.
 
+(* the decisions of the model's loop (does the member just consumed become `completed`? does the loop
+   stop?) are those the running join() takes at every decision point that can be reached - the table
+   is probed on the real class on every run (a falsy result such as 0 counts, None does not) *)
+Theorem C10_probe_join_decisions : decisions_agree = true /\ length join_decisions = 20.
+Proof. split; [exact decisions_agree_true|reflexivity]. Qed.
+
 (* the semaphore counts the queue of finished members (next_done's acquire never blocks on a
    non-empty queue and never succeeds on an empty one) *)
 Theorem C10_semaphore_counts_done : forall p m ls,
@@ -86,6 +92,7 @@ Proof. vm_compute. repeat split. Qed.
 
 Print Assumptions C10_completion_order_exactly_once.
 Print Assumptions C10_completed_is_first.
+Print Assumptions C10_probe_join_decisions.
 Print Assumptions C10_semaphore_counts_done.
 Print Assumptions C10_loop_left_only_by_policy.
 Print Assumptions C10_never_past_a_stop.
